@@ -326,13 +326,14 @@ func optZ(v int64) string {
 	return fmt.Sprintf("(Some %d)", v*1000)
 }
 
-// loadMu: the kinds that load the machine (hundreds of sessions, hundreds of servers) run alone - the timed cases next
+// loadMu: the kinds that load the machine (hundreds of sessions, hundreds of servers, a client flooding PINGREQs, thousands
+// of messages into a shutdown) run alone - the timed cases next
 // to them measure the broker's timers in wall-clock time
 var loadMu sync.RWMutex
 
 func (p *sessProp) Run(ci interface{}) interface{} {
 	c := ci.(*sessCase)
-	if c.Stalled == 16 || c.Stalled == 17 || c.StopRace > 0 {
+	if c.Stalled == 10 || c.Stalled == 11 || c.Stalled == 16 || c.Stalled == 17 || c.StopRace > 0 {
 		loadMu.Lock()
 		defer loadMu.Unlock()
 	} else {
